@@ -6,6 +6,10 @@
    registered signers of the sender / payer account before the step (cfg, pcfg), what the node did (packaged, ok,
    stored) and what changed in the real account state (balance deltas of sender S, signed recipient To, tampered
    recipient Other, payer P, box sender W, the account P2 a tampered gasPayer names; vote / signers changed).
+   The case also says who is named as gas payer (another account / the sender account itself in the reimbursed form)
+   and, for a box, whether its JSON data was re-written after the box sender signed (other sub-transaction, forged
+   "hash" member); Authorized covers both: the gas terms need signatures of the payer's holders made after the last
+   change, the box sender must have signed exactly the sub-transaction that is carried.
    Demanded:   any effect  =>  Authorized (Auth.tla) for the signers registered before the step;
                Canonical /\ Authorized /\ well-formed  =>  packaged / accepted  (the check is not vacuous);
                the effect, when there is one, is that of the submitted content; a refusal changes nothing. *)
@@ -26,8 +30,8 @@ ExecKind(c) == IF c.f = "type" THEN (IF c.kind = "transfer" THEN "vote" ELSE "tr
 EffectOf(c, o, e, k) ==
   LET moved == IF ExecKind(c) = "transfer" THEN o.amount ELSE 0 IN
   /\ e.dOther = moved /\ e.dTo = (IF o.sameTo THEN moved ELSE 0)
-  /\ IF c.pay = "self" THEN e.dS < 0 - moved /\ e.dP = 0 ELSE e.dS = 0 - moved /\ e.dP < 0
-  /\ e.dP2 = (IF c.pay = "self" THEN e.dP ELSE 0)
+  /\ IF PaidBySender(c) THEN e.dS < 0 - moved /\ e.dP = 0 ELSE e.dS = 0 - moved /\ e.dP < 0   \* (P: the other account that pays, else P2)
+  /\ e.dP2 = (IF PaidBySender(c) THEN e.dP ELSE 0)
   /\ (c.box = "none" => e.dW = 0)                      \* (a box is paid for by its sender, who signed it)
   /\ e.vote = (ExecKind(c) = "vote")
   /\ e.cfg2 = (IF c.kind = "signers" THEN (IF c.f = "data" THEN <<100, 100, 100>> ELSE c.ncfg) ELSE k)
